@@ -251,11 +251,11 @@ class TextLab:
               'number_of_lines': [int(n) for n in f['lines']] or None}
         rec = {'kind': 'text', 'f': f, 'sendable': True}
         self.calls += 1
-        wire0 = len(self.pair.net.log)
         try:
             res = self.client.get_localized_texts(**kw)
         except Exception as ex:  # noqa: BLE001
-            if len(self.pair.net.log) == wire0 and kw['number_of_lines']:
+            posted = any(fr.name == 'post_message' for fr in traceback.extract_tb(ex.__traceback__))
+            if not posted and kw['number_of_lines']:
                 # the documented form (list[int]) did not reach the wire: recorded (clause text_request_sendable);
                 # the filter semantics is then judged with the lexical form the message model carries
                 rec['sendable'] = False
